@@ -161,13 +161,77 @@ def cop(op, lat_after):
         return "OReadU"
     if k == "msd":
         return "OMsdLat %s" % cvec(op[1])
+    if k == "copy":
+        return "OCopy"
     raise ValueError(op)
 
 
 # ---------------------------------------------------------------------------------------------- real side
+def ctor_kwargs(c):
+    """keyword arguments of a constructor form (fresh Lattice object each time)"""
+    kw = {}
+    for k in ("xyz", "label", "occupancy"):
+        if k in c:
+            kw[k] = c[k]
+    if "U" in c:
+        kw["U"] = numpy.array(c["U"], dtype=float).reshape(3, 3)
+    if "Uiso" in c:
+        kw["Uisoequiv"] = c["Uiso"]
+    if "lattice" in c:
+        kw["lattice"] = make_lattice(c["lattice"])
+    if "anisotropy" in c:
+        kw["anisotropy"] = c["anisotropy"]
+    return kw
+
+
+def construct(a, c):
+    """The real constructor call for the form c; a = current atom (used as atype when c['from_current'])."""
+    from diffpy.structure import Atom
+    kw = ctor_kwargs(c)
+    if c.get("from_current"):
+        return Atom(a, **kw)
+    if "element" in c:
+        return Atom(c["element"], **kw)
+    return Atom(**kw)
+
+
+def construct_documented(a, c):
+    """The documented meaning of the same form: the assignments made one by one, lattice BEFORE the explicit flag."""
+    from diffpy.structure import Atom
+    if "U" in c and "Uiso" in c:
+        raise ValueError("both")
+    kw = ctor_kwargs(c)
+    d = Atom(a) if c.get("from_current") else Atom()
+    if "U" in kw:
+        d.anisotropy = True
+        d.U = kw["U"]
+    if "Uisoequiv" in kw:
+        d.anisotropy = False
+        d.Uisoequiv = kw["Uisoequiv"]
+    if "lattice" in kw:
+        d.lattice = kw["lattice"]
+    if "anisotropy" in kw:
+        d.anisotropy = bool(kw["anisotropy"])
+    return d
+
+
+def copy_atom(a, how):
+    import copy as _copy
+    from diffpy.structure import Atom
+    if how == "__copy__":
+        return a.__copy__()
+    if how == "copy":
+        return _copy.copy(a)
+    return Atom(a)
+
+
 def apply_op(a, op):
-    """Apply one operation to the real Atom; returns extra observations (msd values)."""
+    """Apply one operation to the real Atom; returns (atom afterwards, extra observations)."""
     k = op[0]
+    if k == "ctor":
+        return construct(a, op[1]), []
+    if k == "copy":
+        return copy_atom(a, op[1]), []
     if k == "aniso":
         a.anisotropy = op[1]
     elif k == "U":
@@ -192,10 +256,10 @@ def apply_op(a, op):
         lat = a.lattice or cart
         m1 = float(a.msdLat(v))
         m2 = float(a.msdCart(lat.cartesian(v)))
-        return [m1, m2]
+        return a, [m1, m2]
     else:
         raise ValueError(op)
-    return []
+    return a, []
 
 
 def observe(a):
@@ -223,9 +287,43 @@ def current_uequiv(a):
     return float(Atom(a).Uisoequiv)
 
 
+def random_ctor(rng, scale=1.0, both=False):
+    """A constructor form: any combination of the keyword arguments (the copy-constructor included)."""
+    c = {}
+    if rng.random() < 0.45:
+        c["from_current"] = True
+    elif rng.random() < 0.7:
+        c["element"] = rng.choice(["C", "Ni", "O2-"])
+    if rng.random() < 0.4:
+        c["xyz"] = [round(rng.uniform(-1, 1), 3) for _ in range(3)]
+    if rng.random() < 0.3:
+        c["label"] = "L%d" % rng.randint(0, 9)
+    if rng.random() < 0.3:
+        c["occupancy"] = rng.choice([1, 0.5, 0.25])
+    k = rng.random()
+    if both:
+        k = 2.0
+    if k < 0.35 or k >= 2:
+        c["U"] = sym_tensor(rng, scale)
+    if 0.35 <= k < 0.7 or k >= 2:
+        c["Uiso"] = rng.choice([rng.uniform(0.001, 1) * scale, 0.0, -0.02 * scale])
+    if rng.random() < 0.75:
+        lat = random_latspec(rng)
+        if lat is not None:
+            c["lattice"] = lat
+    if rng.random() < 0.6:
+        c["anisotropy"] = rng.choice([True, False, 1, 0])
+    return c
+
+
 def random_op(rng, a):
     """One operation; avoids the decision margin of the epsilon test and ill-conditioned rescaling."""
     scale = rng.choice([1.0, 0.01, 1e-3, 5.0])
+    r0 = rng.random()
+    if r0 < 0.05:
+        return ["copy", rng.choice(["__copy__", "copy", "Atom"])]
+    if r0 < 0.13:
+        return ["ctor", random_ctor(rng, scale)]
     for _ in range(50):
         r = rng.random()
         if r < 0.14:
@@ -323,6 +421,43 @@ def clause_failures(a, rng=None, vdirs=()):
     return bad
 
 
+def ctor_failures(before, after, c):
+    """The constructor form c applied to `before` gave `after`: compare with the documented one-by-one assignments."""
+    bad = []
+    try:
+        d = construct_documented(before, c)
+    except ValueError:
+        return [("constructor rejects U together with Uisoequiv", "no ValueError for %s" % sorted(c))]
+    f1, v1 = observe(after)
+    f2, v2 = observe(d)
+    sc = max([abs(x) for x in v2[:9]] + [1e-300])
+    if f1 != f2 or any(abs(x - y) > 1e-9 * max(sc * (80 if 15 <= i < 21 or i == 22 else 1), abs(y)) for i, (x, y) in enumerate(zip(v1, v2))):
+        bad.append(("constructor = the documented assignments one by one (lattice before the flag)",
+                    "form %s: flag %s vs %s, Uisoequiv %r vs %r, U %s vs %s" % (json.dumps(c)[:300], f1, f2, v1[21], v2[21], v1[:9], v2[:9])))
+    if "Uiso" in c and abs(v1[21] - c["Uiso"]) > 1e-9 * max(abs(c["Uiso"]), sc):
+        bad.append(("switching the flag keeps Uisoequiv", "Atom(Uisoequiv=%r, ...) with %s reads back Uisoequiv = %r" % (c["Uiso"], sorted(c), v1[21])))
+    return bad
+
+
+def copy_failures(old, new):
+    """Atom.__copy__ / copy.copy / Atom(a): equal readables, no shared arrays, edits do not propagate."""
+    bad = []
+    if new is old or new._U is old._U or new.xyz is old.xyz or numpy.shares_memory(new._U, old._U) or numpy.shares_memory(new.xyz, old.xyz):
+        bad.append(("a copy shares nothing with its source", "copy shares _U or xyz with the atom it was made from"))
+        return bad
+    if observe(old) != observe(new) or new.lattice is not old.lattice or not numpy.array_equal(new.xyz, old.xyz):
+        bad.append(("a copy reads like its source", "readables differ right after the copy"))
+    snap = (new._U.copy(), new.xyz.copy(), new.anisotropy)
+    keep = (old._U.copy(), old.xyz.copy())
+    old._U += 1.0
+    old.xyz += 1.0
+    if not (numpy.array_equal(new._U, snap[0]) and numpy.array_equal(new.xyz, snap[1]) and new.anisotropy == snap[2]):
+        bad.append(("a copy shares nothing with its source", "editing the source changed the copy"))
+    old._U[:] = keep[0]
+    old.xyz[:] = keep[1]
+    return bad
+
+
 def report(ctx, case, fails):
     """One violation per clause (the first, i.e. shortest, failing history prefix)."""
     seen = ctx.__dict__.setdefault("_c09_seen", set())
@@ -343,7 +478,19 @@ def run_history(case, check_clauses=True):
     a = Atom()
     obs, fails, lats = [], [], []
     for k, op in enumerate(case["ops"]):
-        extra = apply_op(a, op)
+        prev = a
+        try:
+            a, extra = apply_op(a, op)
+        except ValueError:
+            if op[0] == "ctor" and "U" in op[1] and "Uiso" in op[1]:
+                break                       # documented rejection: the history ends here (the model returns None)
+            raise
+        if check_clauses and op[0] == "ctor":
+            for cl, det in ctor_failures(prev, a, op[1]):
+                fails.append((k, cl, det))
+        if check_clauses and op[0] == "copy":
+            for cl, det in copy_failures(prev, a):
+                fails.append((k, cl, det))
         flag, vals = observe(a)
         obs.append((flag, [float(x) for x in numpy.array(a._U).reshape(9)], vals, extra))
         lats.append(a.lattice)
@@ -359,11 +506,21 @@ def gen_case(rng, nsteps):
     from diffpy.structure import Atom
     a = Atom()
     ops, lat_snap = [], []
+    if rng.random() < 0.5:                  # half of the histories start from a constructor form instead of Atom()
+        ops.append(["ctor", random_ctor(rng, rng.choice([1.0, 0.01]))])
+        a, _ = apply_op(a, ops[0])
+        lat_snap.append(clat(make_lattice(ops[0][1]["lattice"])) if "lattice" in ops[0][1] else None)
     for _ in range(nsteps):
         op = random_op(rng, a)
-        apply_op(a, op)
+        a, _ = apply_op(a, op)
         ops.append(op)
-        lat_snap.append(clat(a.lattice) if op[0] in ("lat", "latpar") else None)
+        if op[0] == "ctor":
+            lat_snap.append(clat(make_lattice(op[1]["lattice"])) if "lattice" in op[1] else None)
+        else:
+            lat_snap.append(clat(a.lattice) if op[0] in ("lat", "latpar") else None)
+    if rng.random() < 0.06:                 # U together with Uisoequiv: ValueError, ends the history
+        ops.append(["ctor", random_ctor(rng, both=True)])
+        lat_snap.append(clat(make_lattice(ops[-1][1]["lattice"])) if "lattice" in ops[-1][1] else None)
     return {"ops": ops}, lat_snap
 
 
@@ -374,18 +531,33 @@ def coq_cases_text(cases, snaps, eps):
              "Import ListNotations.", "Open Scope float_scope.",
              "Definition C := FC %s (c_lat_epsilon (FC 0 0))." % fl(math.pi),
              "Definition stU (s : astate float) := flat (st_U s).",
-             "Fixpoint tr (s : astate float) (ops : list (op float)) : list (bool * list float * list float) :=",
-             "  match ops with [] => [] | o :: r => let s' := step C s o in",
+             "Inductive item := IOp (o : op float)",
+             "  | ICtor (from_cur : bool) (an : option bool) (U : option (gmat float)) (ui : option float) (lat : option (latdata float)).",
+             "Definition obs (s : astate float) (extra : list float) := (fst (observe C s), stU s, snd (observe C s) ++ extra).",
+             "Fixpoint tr (s : astate float) (ops : list item) : list (bool * list float * list float) :=",
+             "  match ops with [] => []",
+             "  | IOp o :: r => let s' := step C s o in",
              "    let extra := match o with OMsdLat v => [rd_msdLat C s v; rd_msdCart C s (Lattice_cartesian C (the_lat C s) v)] | _ => [] end in",
-             "    (fst (observe C s'), stU s', snd (observe C s') ++ extra) :: tr s' r end.",
+             "    obs s' extra :: tr s' r",
+             "  | ICtor fc an U ui lat :: r =>",
+             "    match init_Atom C (if fc then Some s else None) an U ui lat with Some s' => obs s' [] :: tr s' r | None => [] end",
+             "  end.",
              "Eval vm_compute in (c_lat_epsilon (FC 0 0))."]
     for case, snap in zip(cases, snaps):
         ops = []
         for op, sn in zip(case["ops"], snap):
             if op[0] in ("lat", "latpar"):
-                ops.append("OSetLat %s" % sn)
+                ops.append("IOp (OSetLat %s)" % sn)
+            elif op[0] == "ctor":
+                c = op[1]
+                ops.append("ICtor %s %s %s %s %s" % (
+                    "true" if c.get("from_current") else "false",
+                    "(Some %s)" % ("true" if c["anisotropy"] else "false") if "anisotropy" in c else "None",
+                    "(Some %s)" % cmat(numpy.array(c["U"]).reshape(3, 3)) if "U" in c else "None",
+                    "(Some %s)" % fl(c["Uiso"]) if "Uiso" in c else "None",
+                    sn if sn is not None else "None"))
             else:
-                ops.append(cop(op, None))
+                ops.append("IOp (%s)" % cop(op, None))
         lines.append("Eval vm_compute in (tr (init C) [%s])." % "; ".join(ops))
     return "\n".join(lines) + "\n"
 
